@@ -173,6 +173,11 @@ func (in *Interp) vf(fn *ssa.Function, args []Value) Value {
 		in.loopBound = n
 		in.res.Bounds["loop-unwinding"] = n
 		return nil
+	case "vfFixedMapOrder":
+		// maps with pointer values are iterated in insertion order only (stated assumption of the harness)
+		in.fixedMapOrder = true
+		in.res.Bounds["map-iteration-orders"] = 1
+		return nil
 	case "vfIgnorePanics":
 		in.ignorePanics = args[0].(*Term).IsTrue()
 		return nil
@@ -218,6 +223,53 @@ func (in *Interp) vf(fn *ssa.Function, args []Value) Value {
 		return nil
 	case "vfRepeat":
 		return IX(1)
+	case "vfErrMentions":
+		// does any argument of the error chain hold the given byte string (same symbolic object)?
+		iv, _ := args[0].(*IfaceV)
+		var node *ArrNode
+		switch s := args[1].(type) {
+		case *StrV:
+			node = s.node
+		case *SliceV:
+			node = s.obj.node
+		}
+		var walk func(v Value, depth int) bool
+		walk = func(v Value, depth int) bool {
+			if depth > 8 {
+				return false
+			}
+			switch x := v.(type) {
+			case *StrV:
+				return x.node == node
+			case *SliceV:
+				return x.obj.node == node
+			case *IfaceV:
+				if x == nil {
+					return false
+				}
+				if eo := errObjOf(x); eo != nil {
+					for _, a := range eo.args {
+						if walk(a, depth+1) {
+							return true
+						}
+					}
+					return false
+				}
+				return walk(x.val, depth+1)
+			case *PtrV:
+				if x.cell != nil {
+					return walk(x.cell.v, depth+1)
+				}
+			case *StructObj:
+				for _, c := range x.f {
+					if walk(c.v, depth+1) {
+						return true
+					}
+				}
+			}
+			return false
+		}
+		return Bool(walk(iv, 0))
 	case "vfIsErrorf":
 		// reports whether err was built by fmt.Errorf with the given constant format
 		iv, _ := args[0].(*IfaceV)
